@@ -63,6 +63,18 @@ TABLE = {
  "C18": [("Proofs/StructBound", n) for n in ["pop_bound_sound", "pop_bound_bounded", "core_bounded_crun", "view_bounded_state_after", "sma_pop", "cyber_pop"]] +
         [("Proofs/StructSched", n) for n in ["sched_pop_bound", "sched_pop_bounded"]],
 }
+EXTRA15 = {
+ "C09": [("Proofs/BridgeEEma", n) for n in ["ema_all_finite_of_bound", "ema_prim_drift_bounded", "ema_f64_bibo_gen", "ema_f64_bibo", "ema_f64_bibo_prefix", "ema_f64_finite"]],
+ "C08": [("Proofs/BridgeEEma", "ema_f64_finite")] + [("Proofs/BridgeEWelf", n) for n in ["welford_f64_finite", "welford_f64_finite_prefix", "welford_f64_state_finite"]] +
+        [("Proofs/BridgeEP", n) for n in ["sma_f64_finite", "cumulative_f64_finite"]],
+ "C16": [("Proofs/BridgeEEma", n) for n in ["ema_prim_drift_bounded", "ema_bridge_bounded"]] +
+        [("Proofs/BridgeEWelf", n) for n in ["welford_all_finite_of_bound", "welford_mean_prim_drift_bounded", "welford_m2_prim_drift_bounded"]] +
+        [("Proofs/BridgeEWr", n) for n in ["wr_all_finite_of_bound", "wr_s_prim_drift_bounded", "wr_var_prim_drift_bounded"]] +
+        [("Proofs/BridgeEP", n) for n in ["sma_f64_bibo_gen", "sma_f64_bibo", "cumulative_f64_bibo"]],
+ "C13": [("Proofs/BridgeEWr", n) for n in ["wr_s_prim_drift_bounded", "wr_var_prim_drift_bounded"]],
+ "C04": [("Proofs/BridgeEP", "sma_f64_bibo")] + [("Proofs/BridgeEEma", "ema_f64_bibo")],
+ "C15": [("Proofs/BridgeEWelf", "welford_f64_finite")],
+}
 EXTRA14 = {
  "C16": [("Proofs/BridgeWOps", n) for n in ["prim_sqrt_fin", "prim_sqrt_fin_inv", "prim_sqrt_neg", "prim_div_ge1_fin", "prim_arith_sim3"]] +
         [("Proofs/BridgeWP", n) for n in ["welford_bridge", "welford_mean_bridge", "welford_var_bridge", "welford_bridge_run", "vst_bridge", "vsct_bridge", "wr_bridge", "wr_bridge_run",
@@ -213,7 +225,7 @@ def header_of(path, name):
     return " ".join(m.group(1).split())
 
 def _merge_extra():
-    for ex in (EXTRA2, EXTRA3, EXTRA4, EXTRA5, EXTRA6, EXTRA7, EXTRA8, EXTRA9, EXTRA10, EXTRA11, EXTRA12, EXTRA13, EXTRA14):
+    for ex in (EXTRA2, EXTRA3, EXTRA4, EXTRA5, EXTRA6, EXTRA7, EXTRA8, EXTRA9, EXTRA10, EXTRA11, EXTRA12, EXTRA13, EXTRA14, EXTRA15):
         for k, v in ex.items():
             EXTRA[k] = EXTRA.get(k, []) + v
 
